@@ -77,6 +77,15 @@ fn run_line(line_no: u64, line: &Value, w: &mut TraceWriter, summ: &mut Vec<Valu
     let rel = line.get("rel").and_then(|r| r.as_str()).unwrap_or("none");
     let base = line_no * 8;
     let opts = RunOpts::default();
+    if line.get("kind").and_then(|k| k.as_str()) == Some("cli") {
+        let bin = std::env::var("VERIF_MUXIDE_BIN").unwrap_or_else(|_| "/verif/harness/target/repo/debug/muxide".into());
+        let workdir = std::env::var("VERIF_WORKDIR").unwrap_or_else(|_| "/verif/work".into());
+        let ev = muxide_verif_harness::cli::run_cli_line(base, line, &bin, &workdir);
+        w.write(&ev);
+        summ.push(json!({"line": line_no, "calls": 1, "nv": 0, "na": 0, "rej": 0, "fin": 0, "rej_then_ok": false, "segs": 0, "crashed": false,
+                         "hash": format!("{:x}", { use std::hash::{Hash, Hasher}; let mut h = std::collections::hash_map::DefaultHasher::new(); line.to_string().hash(&mut h); h.finish() })}));
+        return 1;
+    }
     if line.get("kind").and_then(|k| k.as_str()) == Some("frag") {
         let c = Cfg { json: cfgv.clone() };
         let a = exec::run_frag_instance(base, &c, &calls);
@@ -153,6 +162,21 @@ fn run_line(line_no: u64, line: &Value, w: &mut TraceWriter, summ: &mut Vec<Valu
             emit(w, &b);
             if !a.crashed && !b.crashed {
                 w.write(&pairs::pair_same(base, "alias", "builder", &a, &b, None));
+            }
+            2
+        }
+        "modes" => {
+            let c = Cfg { json: cfgv.clone() };
+            // muxers of other codecs that run in between / next to the behaviour under test
+            let others: Vec<(Cfg, Vec<Value>)> = line.get("others").and_then(|o| o.as_array()).map(|a| {
+                a.iter().map(|x| (Cfg { json: x["cfg"].clone() }, x["calls"].as_array().cloned().unwrap_or_default())).collect()
+            }).unwrap_or_default();
+            let mut evs = Vec::new();
+            let workdir = std::env::var("VERIF_WORKDIR").unwrap_or_else(|_| "/verif/work".into());
+            let a = muxide_verif_harness::modes::run_modes(base, &c, &calls, &others, &workdir, &mut evs);
+            summ.push(summarise(line_no, line, &a));
+            for e in &evs {
+                w.write(e);
             }
             2
         }
@@ -350,6 +374,26 @@ fn cmd_replay(args: &[String]) {
     });
     let lines: Vec<String> = std::io::BufReader::new(f).lines().map(|l| l.unwrap()).filter(|l| !l.trim().is_empty()).collect();
     let lines = Arc::new(lines);
+    let line_timeout: u64 = arg(args, "--line-timeout").and_then(|s| s.parse().ok()).unwrap_or(20);
+    // watchdog: (line index + 1, start time in ms) per shard; a line that runs longer than the limit is a hang
+    let progress: Arc<Vec<(std::sync::atomic::AtomicU64, std::sync::atomic::AtomicU64)>> =
+        Arc::new((0..shards).map(|_| (std::sync::atomic::AtomicU64::new(0), std::sync::atomic::AtomicU64::new(0))).collect());
+    let t0 = std::time::Instant::now();
+    {
+        let progress = progress.clone();
+        std::thread::spawn(move || loop {
+            std::thread::sleep(std::time::Duration::from_millis(250));
+            let now = t0.elapsed().as_millis() as u64;
+            for p in progress.iter() {
+                let k = p.0.load(Ordering::Relaxed);
+                let st = p.1.load(Ordering::Relaxed);
+                if k > 0 && now > st + line_timeout * 1000 {
+                    println!("{}", json!({"hang_line": k - 1, "seconds": line_timeout}));
+                    std::process::exit(3);
+                }
+            }
+        });
+    }
     let total_inst = Arc::new(AtomicUsize::new(0));
     let total_ev = Arc::new(AtomicUsize::new(0));
     let mut handles = vec![];
@@ -358,6 +402,7 @@ fn cmd_replay(args: &[String]) {
         let out = out.clone();
         let ti = total_inst.clone();
         let te = total_ev.clone();
+        let progress = progress.clone();
         handles.push(std::thread::spawn(move || {
             exec::install_panic_hook();
             let mut w = TraceWriter::create(&format!("{}/shard_{}.ndjson", out, s));
@@ -371,6 +416,8 @@ fn cmd_replay(args: &[String]) {
                         std::process::exit(2);
                     }
                 };
+                progress[s].1.store(t0.elapsed().as_millis() as u64, Ordering::Relaxed);
+                progress[s].0.store(k as u64 + 1, Ordering::Relaxed);
                 let n = if v.get("enum").is_some() {
                     run_sink_line(k as u64, &v, &mut w, &mut summ)
                 } else {
@@ -379,6 +426,7 @@ fn cmd_replay(args: &[String]) {
                 ti.fetch_add(n, Ordering::Relaxed);
                 k += shards;
             }
+            progress[s].0.store(0, Ordering::Relaxed);
             let n = w.finish();
             te.fetch_add(n, Ordering::Relaxed);
             let mut sw = TraceWriter::create(&format!("{}/summary_{}.ndjson", out, s));
@@ -402,6 +450,29 @@ fn main() {
     let args: Vec<String> = std::env::args().collect();
     match args.get(1).map(|s| s.as_str()) {
         Some("replay") => cmd_replay(&args[2..]),
+        Some("fnlist") => {
+            // explicit byte strings (one JSON array per line) through the function tables
+            let a = &args[2..];
+            let input = arg(a, "--in").expect("--in");
+            let out = arg(a, "--out").expect("--out");
+            let shards: usize = arg(a, "--shards").and_then(|s| s.parse().ok()).unwrap_or(8);
+            std::fs::create_dir_all(&out).unwrap();
+            let f = std::fs::File::open(&input).expect("input");
+            let strings: Vec<Vec<u8>> = std::io::BufReader::new(f).lines().map(|l| l.unwrap()).filter(|l| !l.trim().is_empty())
+                .map(|l| exec::bytes_of(&serde_json::from_str::<Value>(&l).unwrap())).collect();
+            let mut events = 0;
+            for s in 0..shards {
+                let mut w = TraceWriter::create(&format!("{}/shard_{}.ndjson", out, s));
+                w.write(&json!({"ev": "fnhdr", "base": s, "stride": shards, "maxlen": 0, "alpha": [0], "cfg": false, "explicit": true}));
+                let mut k = s;
+                while k < strings.len() {
+                    w.write(&muxide_verif_harness::fnt::fn_event(k as u64, &strings[k], false));
+                    k += shards;
+                }
+                events += w.finish();
+            }
+            println!("{}", json!({"instances": strings.len(), "events": events, "shards": shards}));
+        }
         Some("fnone") => {
             // a single table entry (replay of a reported violation)
             let a = &args[2..];
